@@ -86,9 +86,18 @@ def sweep(db, dbname, proj, events, rng, thorough, rep, light=False):
                 arr = numpy.array(vals_u)
                 same_exact = (same_exact and list(conv(qt, u, u, list(vals_u))) == list(vals_u) and tuple(conv(qt, u, u, tuple(vals_u))) == tuple(vals_u)
                               and bool(numpy.array_equal(conv(qt, u, u, arr), arr)) and conv(qt, [(u, 1)], [(u, 1)], vals_u[1]) == vals_u[1])
+            # every measured amount (zero and the offsets' images included) converts alike as a float, in a list, a tuple and a numpy array
+            try:
+                import numpy
+                for cont_ in (list(vals_u), tuple(vals_u), numpy.array(vals_u)):
+                    got_c = conv(qt, u, w, cont_)
+                    if len(got_c) != len(ys) or any(ppt(abs(float(g_) - y_), max(abs(y_), zero_of[(u, w)])) > 1000 for g_, y_ in zip(got_c, ys)):
+                        same_exact = False
+            except Exception:  # noqa
+                same_exact = False
             # whole numbers in a list / tuple convert like the floats (large amounts included)
             try:
-                ints = [600000000, 3, -7]
+                ints = [600000000, 3, -7, 0]
                 li = conv(qt, u, w, list(ints))
                 ti = conv(qt, u, w, tuple(ints))
                 for k_, iv in enumerate(ints):
